@@ -75,6 +75,8 @@ __CPROVER_ensures((buf_ret != NULL && buf_size_ret != NULL) ==>
 /* (redundant with the two clauses above; stated for the callers' benefit) */
 __CPROVER_ensures((buf_ret != NULL && buf_size_ret != NULL) ==>
     (*buf_size_ret == 0 || __CPROVER_r_ok(*buf_ret, *buf_size_ret)))
+/* content: the suffix is empty or starts with a byte that is not white space (>= 33) */
+__CPROVER_ensures((buf_ret != NULL && VF_OFF(*buf_ret) - VF_OFF(buf) < buf_size) ==> (*buf_ret)[0] >= 33)
 ;
 
 /* ----------------------------------------------------------------- skip_spwsp2 ---- */
@@ -176,7 +178,8 @@ __CPROVER_ensures((__CPROVER_return_value == 0 &&					\
 __CPROVER_ensures(__CPROVER_return_value == 0 ==> (req_data->line_size == hdr_size ||	\
     (req_data->line_size + 2 <= hdr_size && http_hdr[req_data->line_size] == '\r' &&	\
      http_hdr[req_data->line_size + 1] == '\n')))					\
-__CPROVER_ensures((__CPROVER_return_value == 0 && vf_k + 1 < req_data->line_size) ==>	\
+__CPROVER_ensures((__CPROVER_return_value == 0 && vf_k < req_data->line_size &&		\
+    vf_k + 1 < req_data->line_size) ==>						\
     !(http_hdr[vf_k] == '\r' && http_hdr[vf_k + 1] == '\n'))
 #else
 #define VF_REQ_LINE_K_ENSURES
